@@ -297,6 +297,78 @@ theorem WFRight_hi (d h : Nat) (hi : Option Key) : ∀ (right : List (Key × Nod
     have : bndOK (some s) hi := WFKids_bnd _ (WF_bnd d h) r _ _ _ hw
     cases hi <;> simp_all <;> omega
 
+
+theorem WFKids_forall (P : Option Key → Option Key → Node → Prop) (Q : Node → Prop)
+    (hPQ : ∀ lo hi n, P lo hi n → Q n) :
+    ∀ (r : List (Key × Node)) (lo hi : Option Key) (c : Node), WFKids P lo hi c r → Q c ∧ ∀ p ∈ r, Q p.2 := by
+  intro r
+  induction r with
+  | nil => intro lo hi c hk; exact ⟨hPQ _ _ _ hk, by simp⟩
+  | cons p r ih =>
+    obtain ⟨s, c'⟩ := p
+    intro lo hi c hk
+    have := ih _ _ _ hk.2
+    refine ⟨hPQ _ _ _ hk.1, ?_⟩
+    intro q hq
+    simp at hq
+    rcases hq with rfl | hq
+    · exact this.1
+    · exact this.2 q hq
+
+theorem flat_nonempty (d : Nat) : ∀ (h : Nat) (lo hi : Option Key) (n : Node), WF d h lo hi n →
+    ∀ e ∈ flat h n, e.2 ≠ [] := by
+  intro h
+  induction h with
+  | zero =>
+    intro lo hi n hw e he
+    cases n with
+    | leaf es => exact (hw.2.1 e he).2.2
+    | internal c0 r => exact hw.elim
+  | succ h ih =>
+    intro lo hi n hw e he
+    cases n with
+    | leaf es => exact hw.elim
+    | internal c0 r =>
+      have := WFKids_forall (WF d h) (fun n => ∀ e ∈ flat h n, e.2 ≠ []) ih r _ _ _ hw.2.2
+      rw [flat_internal] at he
+      simp only [List.mem_append, flatRight, List.mem_flatMap] at he
+      rcases he with he | ⟨p, hp, he⟩
+      · exact this.1 e he
+      · exact this.2 p hp e he
+
+theorem WFKids_sorted (d h : Nat)
+    (hP : ∀ lo hi n, WF d h lo hi n → (flat h n).Pairwise (fun a b => a.1 < b.1)) :
+    ∀ (r : List (Key × Node)) (lo hi : Option Key) (c : Node), WFKids (WF d h) lo hi c r →
+      (flat h c ++ flatRight h r).Pairwise (fun a b => a.1 < b.1) := by
+  intro r
+  induction r with
+  | nil => intro lo hi c hk; simpa using hP _ _ _ hk
+  | cons p r ih =>
+    obtain ⟨s, c'⟩ := p
+    intro lo hi c hk
+    rw [flatRight_cons, List.pairwise_append]
+    refine ⟨hP _ _ _ hk.1, ih _ _ _ hk.2, ?_⟩
+    intro a ha b hb
+    have h1 := WF_flat_bounds d h _ _ _ hk.1 a ha
+    have h2 := WFKids_flat_bounds d h (WF_flat_bounds d h) r _ _ _ hk.2 b hb
+    simp at h1 h2
+    omega
+
+theorem flat_sorted (d : Nat) : ∀ (h : Nat) (lo hi : Option Key) (n : Node), WF d h lo hi n →
+    (flat h n).Pairwise (fun a b => a.1 < b.1) := by
+  intro h
+  induction h with
+  | zero =>
+    intro lo hi n hw
+    cases n with
+    | leaf es => exact hw.1
+    | internal c0 r => exact hw.elim
+  | succ h ih =>
+    intro lo hi n hw
+    cases n with
+    | leaf es => exact hw.elim
+    | internal c0 r => exact WFKids_sorted d h ih r _ _ _ hw.2.2
+
 /-! ## The association-list specification under concatenation -/
 
 theorem amInsert_left (A L : List Entry) (k : Key) (r : RowId) (h : ∀ e ∈ A, e.1 < k) :
